@@ -193,6 +193,26 @@ def run(ctx):
         if len(ctx.samples) < 3 and neq:
             ctx.sample({'src': c['src'][:300], 'out': (r.get('txt') or '')[:200]})
     corr.t2t(ctx, cases, results, proj=('outcome', 'toks', 'text', 'diags'), limit=ctx.scale(900, 20000))
+    # the operators an aligned section may start with (pinned list): operators with the same spoken word render alike
+    OPS = ['+', '-', '\\cdot', '\\times', '/', '=', '\\eq', '\\ne', '\\neq', '<', '>', '\\le', '\\leq', '\\ge', '\\geq', ':', ':=', '\\to',
+           '\\cap', '\\cup', '\\Rightarrow', '\\Leftarrow', '\\Leftrightarrow', '\\subset', '\\subseteq', '\\supset', '\\supseteq']
+    WORDCLASS = {'+': 'plus', '-': 'minus', '\\cdot': 'times', '\\times': 'times', '/': 'over'}
+    ocases = [{'src': 'Qa\n\\begin{align}\n a &%s b \\\\\n c &%s d, \\\\\n &%s e.\n\\end{align}\nQb' % (op, op, op), 'opts': {'pack': '*', 'lang': lang},
+               'multi': False, 'kind': 'optable', 'op': op} for lang in ('en', 'de', 'ru') for op in OPS]
+    ores = ctx.pmap(t2t.run_case, ocases)
+    groups = {}
+    for c, r in zip(ocases, ores):
+        ctx.case(c['src'], nontrivial=True); ctx.count('operator_table_cases')
+        if r['outcome'] == 'ok':
+            groups.setdefault((c['opts']['lang'], WORDCLASS.get(c['op'], 'default')), []).append((c, r['txt']))
+    for (lang, cls), lst in sorted(groups.items()):
+        ref = max(set(t for _, t in lst), key=lambda t: sum(1 for _, u in lst if u == t))
+        for c, t in lst:
+            if t != ref:
+                ctx.violation('an aligned section that starts with the operator %s is rendered %r, with the other operators of the same kind %r'
+                              % (c['op'], t, ref), src=c['src'], opts=c['opts'], kind='optable', ref=ref)
+                break
+    corr.t2t(ctx, ocases, ores, proj=('outcome', 'toks', 'text'), limit=len(ocases))
     # several languages in one document: each language rotates its own collection
     docs = [mlmath.make(ctx.rng, display=True) for _ in range(ctx.scale(60, 1500))]
     flat, index = [], []
@@ -217,7 +237,10 @@ def rejudge(c):
 def replay(data):
     v = data['violation']
     f = None
-    if v.get('mlmath'):
+    if v.get('kind') == 'optable':
+        r = t2t.run_case({'src': v['src'], 'opts': v['opts'], 'multi': False})
+        f = [] if r.get('txt') == v['ref'] else ['rendered %r, the other operators of the same kind %r' % (r.get('txt'), v['ref'])]
+    elif v.get('mlmath'):
         d = v['mlmath']; d['segs'] = [(l, how, [tuple(i) for i in items]) for (l, how, items) in d['segs']]
         full, per = mlmath.cases_of(d)
         f = mlmath.judge(d, t2t.run_case(full), {l: t2t.run_case(per[l]) for l in per})
